@@ -20,7 +20,7 @@ COMPONENTS = {"real": ["mofun.replace_pattern_in_structure, find_pattern_in_stru
 ASSUMPTIONS = ["worlds whose selected matches share atoms are left to C07 (counted, not judged here)",
                "which k matches are replaced and the order of atoms in the result are not judged"]
 NRUNS = {"quick": 5000, "thorough": 80000}
-MUST_REACH = ["replaced_matches", "sample_calls_with_0<k<M", "bystanders_checked"]
+MUST_REACH = ["replaced_matches", "bystanders_checked"]   # only probes that do not depend on HOW the code under test works
 
 
 def generate(rng, tier):
